@@ -219,6 +219,12 @@ theorem maskfree_program (eng meng : Eng) (f : Nat) (ops : List Op) (s : Str) (h
     (traceStepsM eng meng f ops s).map (fun p => (p.1.map (·.step), p.2)) = traceSteps eng f ops s :=
   L.traceStepsM_maskFree eng meng f ops s hf
 
+/-- instance: after the mask rule `=b` on "abc" (mask B at position 2), the rule `!b<TAB>c` is
+blocked and leaves the string alone; without the mask it rewrites. -/
+example : (applyRuleM "abc".toList [⟨1, 2, []⟩] [0, 0, 1, 0, 0] [] [.lit ['c']]).res.out = "abc".toList
+    ∧ (applyRuleM "abc".toList [⟨1, 2, []⟩] [0, 0, 0, 0, 0] [] [.lit ['c']]).res.out = "acc".toList
+    ∧ maskApply [0, 0, 0, 0, 0] [⟨1, 2, []⟩] [0, 0, 0, 0, 0] = some [0, 0, 1, 0, 0] := by decide
+
 /-! ## hypotheses are satisfiable / concrete instances (past failures as regression) -/
 
 /-- `!wo(n't)<TAB>\1` on "I won't go" (F16 witness): string. -/
